@@ -1,7 +1,15 @@
 module verifharness
 
-go 1.13
+go 1.22.0
 
-require github.com/amzn/ion-go v0.0.0
+require (
+	github.com/amzn/ion-go v0.0.0
+	golang.org/x/tools v0.29.0
+)
+
+require (
+	golang.org/x/mod v0.22.0 // indirect
+	golang.org/x/sync v0.10.0 // indirect
+)
 
 replace github.com/amzn/ion-go => /repo
